@@ -53,6 +53,14 @@ mod parsing {
     }
 
     pub fn parse_mode(pattern: &str, for_dir: bool) -> Result<u32, Box<dyn Error>> {
+        // A mode contains no blanks (the numeric parser would trim them), and
+        // "+OCTAL" is not one: it is what -perm /OCTAL used to be spelled.
+        let old_any_of = pattern
+            .strip_prefix('+')
+            .is_some_and(|rest| !rest.is_empty() && rest.bytes().all(|b| b.is_ascii_digit()));
+        if pattern.contains(char::is_whitespace) || old_any_of {
+            return Err(From::from(format!("invalid mode '{pattern}'")));
+        }
         let mode = if pattern.contains(|c: char| c.is_ascii_digit()) {
             parse_numeric(0, pattern, for_dir)?
         } else {
